@@ -3,6 +3,6 @@ CONSTANTS
   Circs <- C2
   Streams <- S3
   Conns <- K2
-  Ports <- P3
+  Ports <- P3F
   MaxSteps = 30
   MaxSubs = 3
